@@ -50,9 +50,9 @@ mutual
     | .mk f nots ors, hok => by
       unfold CritOK at hok
       obtain ⟨hf, hn, ho⟩ := hok
-      have h1 := mapM_ok f.seqSets wNumSet (fun s => atom s.text) (fun s hs => wNumSet_ok s (hf.seq s hs).1)
+      have h1 := mapM_ok f.seqSets wNumSet (fun s => atom s.text) (fun s hs => (setReads_lit s (hf.seq s hs).1).write)
       have h2 := mapM_ok f.uidSets (fun s => do let w ← wNumSet s; pure (kw "UID" ++ sp ++ w)) (fun s => kw "UID" ++ sp ++ atom s.text)
-        (fun s hs => by simp [wNumSet_ok s (hf.uid s hs).1, bind, Except.bind, pure, Except.pure])
+        (fun s hs => by simp [(setReads_lit s (hf.uid s hs)).write, bind, Except.bind, pure, Except.pure])
       have h3 := mapM_ok f.flags (wSearchFlag "") (fun fl => (flagItem fl).1) (fun fl hfl => wSearchFlag_pos fl (hf.flags fl hfl))
       have h4 := mapM_ok f.notFlags (wSearchFlag "UN") (fun fl => (notFlagItem fl).1) (fun fl hfl => wSearchFlag_neg fl (hf.notFlags fl hfl))
       have h5 := wNots_ok nots hn
